@@ -122,8 +122,13 @@ def interrupted_then_continued(case):
     """one evaluation fails (exception or interrupt) in the middle of a mixture of calls; the caller catches it and goes on: the trial
     sequence is the one of the undisturbed Solve (the failed point is simply tried again)"""
     base = O.trajectory(dict(case, fail_at=None), [('solve',)])[0]
+    # explicit calls do not test the stop rule: their total stays below the stop point of the undisturbed run (one call is lost to the failure)
+    room = len(base) - 2
+    if room < 3 or case['fail_at'] > len(base):
+        return []
+    b1 = max(1, room // 4); b2 = max(1, room // 3); b3 = max(1, room - b1 - b2 - 2)
     p, s = O.build(case)
-    for op in [('iter', 2), ('iter', 3), ('iter', 4), ('solve',), ('solve',)]:
+    for op in [('iter', b1), ('iter', b2), ('iter', b3), ('solve',), ('solve',)]:
         try:
             H.run_script(s, [op])
         except BaseException as e:  # noqa
